@@ -370,6 +370,13 @@ def transpose(it, v, axes, node):
 
 def numpy_call(it, fn, d, e, env, argv, kw, args):
     a0 = argv[0] if argv else None
+    if fn == "shape" and a0 is not None and a0.is_numlike:
+        if a0.sh is None:
+            return V("tuple", tup=None, note="shape")
+        tp = tuple(V("num", count_of=a, s=1 if (a == "N" and it.c.track_s) else 0, sh=()) for a in a0.sh)
+        for x in tp:
+            x.part = a0.part
+        return V("tuple", tup=tp, note="shape")
     if fn == "atleast_2d" and a0 is not None and a0.is_numlike and a0.sh is not None and len(a0.sh) == 1:
         return a0.copy(sh=("N",) + tuple(a0.sh))  # a single vector becomes a batch of one sample
     if fn in ("atleast_2d", "atleast_1d", "asarray", "asanyarray", "ascontiguousarray", "squeeze", "nan_to_num", "abs", "absolute", "fabs", "copy", "float64", "real"):
@@ -398,8 +405,9 @@ def numpy_call(it, fn, d, e, env, argv, kw, args):
             return el.copy(sh=(ax,) + tuple(el.sh) if el.sh is not None else None, cval=None)
         return unk(fn + " of " + (fmt(a0) if a0 else "?"))
     if fn in ("zeros", "ones", "empty", "full", "eye", "identity", "zeros_like", "ones_like", "full_like", "empty_like"):
+        zero = 0.0 if fn in ("zeros", "zeros_like") else None  # an array of zeros is zero in every dimension
         if fn.endswith("_like") and a0 is not None and a0.is_numlike:
-            return wild(a0.sh)
+            return wild(a0.sh, zero)
         sh = None
         shv = kw.get("shape", a0)
         if shv is not None and shv.k == "tuple" and shv.tup is not None:
@@ -409,7 +417,7 @@ def numpy_call(it, fn, d, e, env, argv, kw, args):
         if fn in ("eye", "identity"):
             k = a0.count_of if a0 is not None and a0.is_numlike and a0.count_of else "?"
             sh = (k, k)
-        return wild(sh)
+        return wild(sh, zero)
     if fn in ("exp", "expm1"):
         if a0 is None:
             return unk()
